@@ -244,7 +244,7 @@ def pass_position(u: Unit):
                         continue
                     u.static(f"models.pass_position[{fn.name}.{key}]", got in want, fn.qualname,
                              f"{fn.name}: {key} argument denotes {got!r} (expected {want[0]}) at line {call.lineno}", witness={"function": fn.name, "key": key, "got": got},
-                             replay=lambda w, fnname=fn.name, mod=mi.name: position_replay(mod, fnname))
+                             replay=(lambda w, fnname=fn.name, mod=mi.name: position_replay(mod, fnname)) if (mi.relpath, fn.name) in LOADERS else None)
                 if (mi.relpath, fn.name) not in LOADERS:
                     continue     # the shape obligation is stated for the image / charge loading models of the statement
                 shape = normalise_expr(fn.node, call.keywords, "shape")
